@@ -330,13 +330,13 @@ func tryInput(id atree.SlabID, in []byte, out *c19Out) (v *Violation) {
 		runtime.ReadMemStats(&m0)
 		_, _ = atree.DecodeSlab(id, in, cborDecMode, decodeStorable, decodeTypeInfo)
 		runtime.ReadMemStats(&m1)
-		if exact := m1.TotalAlloc - m0.TotalAlloc; exact > 1<<20+512*uint64(len(in)) {
+		exact := m1.TotalAlloc - m0.TotalAlloc
+		if exact > 1<<20+512*uint64(len(in)) {
 			return viol("decode-alloc", "decoding %d bytes allocated %d bytes", len(in), exact)
 		}
 		out.remeasured++
-	} else if len(in) > 0 {
-		if r := float64(d) / float64(len(in)); r > out.maxAllocRatio {
-			out.maxAllocRatio = r
+		if float64(exact) > out.maxAllocRatio {
+			out.maxAllocRatio = float64(exact)
 		}
 	}
 	if err != nil {
@@ -442,8 +442,8 @@ func runC19(c *CaseCtx) *CaseResult {
 	res.Obs["rejected-inputs"] += out.rejected
 	res.Obs["accessor-visits"] += out.reachedElements
 	res.Obs["allocation-exactly-remeasured"] += out.remeasured
-	if int(out.maxAllocRatio) > res.Obs["max-alloc-bytes-per-input-byte"] {
-		res.Obs["max-alloc-bytes-per-input-byte"] = int(out.maxAllocRatio)
+	if int(out.maxAllocRatio) > res.Obs["max-exactly-remeasured-allocation-bytes"] {
+		res.Obs["max-exactly-remeasured-allocation-bytes"] = int(out.maxAllocRatio)
 	}
 	res.Hash = uint64(c.CaseSeed())
 	res.NonTrivial = out.accepted > len(corpus) && out.rejected > 0
